@@ -163,7 +163,7 @@ WIN_FAULTS = ["", "-1", "65536", "65535", "0", "mss*0", "mss*1", "mss*1000", "ms
 SCALE_FAULTS = ["", "-1", "256", "255", "x", "*", "0", "**"]
 OPT_FAULTS = ["", "?-1", "?256", "?255", "?0", "eol+256", "eol+255", "eol+0", "eol+-1", "eol+", "eol", "foo", "MSS", "?", "nop ", "sack", "ts", "eol+{padding_length}"]
 MTU_FAULTS = ["0", "1", "65535", "65536", "", "x", "-5", "1500 ", "*"]
-HTTP_VER_FAULTS = ["", "2", "x", "10", "0", "1", "*", "**"]
+HTTP_VER_FAULTS = ["", "2", "x", "10", "0", "1", "*", "**", "01", "00", "+1", "-0", "0_1", " 1", "1 ", "\uff11", "\u0660", "1.0", "0x1"]   # the version is a KEYWORD (0, 1, *), not a number
 
 
 def corrupt_sig_field(R, kind, val):
